@@ -1806,6 +1806,57 @@ def check_rank2(r, rule, q):
 
 
 # =========================================================================== candidate generation shared by the search properties
+def _whole_variant_list(nn, q, v):
+    """v is the dictionary entry itself (value of variant_dict.items() / .values() / variant_dict[key]), not a subset or regrouping of it."""
+    v = strip(v)
+    if head(v) == "item" and v[2] == 1 and head(strip(v[1])) in ("iter", "citer") and is_mcall(strip(strip(v[1])[-1]), "items"):
+        return nn.map_info(q, strip(strip(strip(v[1])[-1])[1])[1]) is not None
+    if head(v) == "sub":
+        return nn.map_info(q, v[1]) is not None
+    if head(v) in ("iter", "citer") and is_mcall(strip(v[-1]), "values"):
+        return nn.map_info(q, strip(strip(v[-1])[1])[1]) is not None
+    return False
+
+
+def pair_source_verdict(nn, q, st):
+    """Where the self-mode insertion site takes its (i, j) from:
+    True / 'collected'  - combinations(values, 2) over a variant's whole position list, directly or collected into a set first;
+    False               - combinations over something else (a subset or regrouping of the list: pairs across the groups are lost);
+    None                - no combinations call in sight (cannot decide).   Second component: text for the report."""
+    a = strip(st.a)
+    it = strip(a[1])[-1] if head(a) == "item" and head(strip(a[1])) in ("iter", "citer") else None
+    if it is None:
+        return None, show(a, 60)
+    it = strip(it)
+    if is_call(it, "itertools.combinations") and len(it[2]) == 2 and is_const(it[2][1], 2):
+        return _whole_variant_list(nn, q, it[2][0]), show(it, 80)
+    # pairs collected first:  pairs = set(); for values in D.values(): pairs.update(combinations(values, 2));  for i, j in pairs: ...
+    s = nn.summary(q)
+    seen, todo, combos = set(), [it], []
+    while todo:
+        t = todo.pop()
+        for x in walk(t):
+            if is_call(x, "itertools.combinations") and len(x[2]) == 2 and is_const(x[2][1], 2):
+                combos.append(x)
+            elif head(x) in ("after", "phi") and isinstance(x[2], str) and (x[1], x[2]) not in seen:
+                seen.add((x[1], x[2]))
+                lp = s.loops.get(x[1])
+                if lp is not None:
+                    todo.append(lp.update.get(x[2], NONE))
+                    todo.append(lp.init.get(x[2], NONE))
+    if not combos:
+        return None, show(it, 60)
+    if head(it) in ("after",) and all(_whole_variant_list(nn, q, c[2][0]) for c in combos):
+        lp = s.loops.get(it[1])
+        upd = strip(lp.update.get(it[2], NONE)) if lp is not None else NONE
+        plain = head(upd) == "mut" and upd[1] == "update" and strip(upd[2]) == ("phi", it[1], it[2]) and len(upd[3]) == 1 and strip(upd[3][0]) in combos
+        if plain:
+            return "collected", "pairs collected from " + show(combos[0], 70)
+    if all(not _whole_variant_list(nn, q, c[2][0]) for c in combos):
+        return False, show(it, 80)
+    return None, show(it, 60)
+
+
 def check_symdel_pairs(r, rule, cd_modes):
     """symdel self mode: every unordered pair of positions sharing a deletion variant is examined - pairs are drawn by
     itertools.combinations over the whole position list of the variant, both orientations are inserted under the same guards into a set."""
@@ -1823,20 +1874,14 @@ def check_symdel_pairs(r, rule, cd_modes):
         if not sites:
             continue
         st = sites[0][1]
-        a = strip(st.a)
-        it = strip(a[1])[-1] if head(a) == "item" and head(strip(a[1])) in ("iter", "citer") else None
-        ok_comb = it is not None and is_call(it, "itertools.combinations") and len(strip(it)[2]) == 2 and is_const(strip(it)[2][1], 2)
-        whole = False
-        if ok_comb:
-            v = strip(strip(it)[2][0])
-            # the position list must be the dictionary entry itself (values of variant_dict.items()), not a subset / regrouping of it
-            whole = head(v) == "item" and v[2] == 1 and head(strip(v[1])) in ("iter", "citer") and is_mcall(strip(strip(v[1])[-1]), "items") and nn.map_info(q, strip(strip(strip(v[1])[-1])[1])[1]) is not None
-            if not whole and head(v) == "sub":
-                whole = nn.map_info(q, v[1]) is not None
-            if not whole and head(v) in ("iter", "citer") and is_mcall(strip(v[-1]), "values"):
-                whole = nn.map_info(q, strip(strip(v[-1])[1])[1]) is not None
-        rep.ob(rule, q, ok_comb and whole, f"every unordered pair of distinct positions filed under a variant is examined once [{mname}]", w,
-               expected="for i, j in combinations(values, 2) with values = the variant's whole position list", found=show(it, 80) if it is not None else show(a, 60), key=f"pairs {mname}")
+        verdict, found = pair_source_verdict(nn, q, st)
+        if verdict is None:
+            rep.require(False, f"{q}: pairs are drawn from {found}, which is not built from combinations(values, 2); cannot decide [{rule}]")
+            continue
+        rep.ob(rule, q, verdict, f"every unordered pair of distinct positions filed under a variant is examined once [{mname}]", w,
+               expected="for i, j in combinations(values, 2) with values = the variant's whole position list", found=found, key=f"pairs {mname}")
+        if verdict == "collected":
+            continue
         loops_ok = len([l for l in st.loops if l[0] is not None]) == 2
         rep.ob(rule, q, loops_ok, f"pairs are enumerated by exactly two nested loops (variants x pairs) [{mname}]", w, expected="2 loops", found=f"{len(st.loops)} loops", key=f"pair loops {mname}")
 
